@@ -4345,7 +4345,17 @@ pub fn compile_with_module_info(
     let (expr, mut infer_ctx, errors) =
         typecheck_with_module_info(expr, builtin_types, file_path.clone(), module_info);
     if errors.is_empty() {
-        let top_type = infer_ctx.infer_type(expr).unwrap();
+        // the type of the root is looked up again: an error that the first pass swallowed
+        // surfaces here and is a diagnostic like any other
+        let top_type = match infer_ctx.infer_type(expr) {
+            Ok(t) => t,
+            Err(errs) => {
+                return Err(errs
+                    .into_iter()
+                    .map(|e| Box::new(e) as Box<dyn ReportableError>)
+                    .collect());
+            }
+        };
 
         // ---------- Two-pass compilation via translate_staging ----------
         //
